@@ -254,10 +254,26 @@ def _renames(ck: Checker) -> None:
     ck.require(lo == 1 and hi == 1, "C08.renames", fn, first, "every incoming change is either kept for pairing or passed through, exactly once",
                f"an incoming change is handled {lo}..{hi} times (lost or duplicated)", witness=g.fmt_path(wit["min"] if lo != 1 else wit["max"]) if (lo, hi) != (1, 1) else None)
     # ADD/DELETE classification of the two buckets
+    lv_ = norm(first.ast.target)
+    # `typ = change.typ` read once per iteration: locals of the loop body bound only to the change's kind
+    kinds = {f"{lv_}.typ"}
+    for a in walk_own(fn.node):
+        if isinstance(a, ast.Assign) and len(a.targets) == 1 and isinstance(a.targets[0], ast.Name) and norm(a.value) == f"{lv_}.typ":
+            nm_ = a.targets[0].id
+            if all(norm(d_.value) == f"{lv_}.typ" for d_ in scope_of(fn).get(nm_) if d_.value is not None) and all(d_.value is not None for d_ in scope_of(fn).get(nm_)):
+                kinds.add(nm_)
+
+    def is_kind_test(t, lab, typ):
+        e = t.ast
+        if not (t.kind == "test" and isinstance(e, ast.Compare) and len(e.ops) == 1 and isinstance(e.ops[0], ast.Eq) and lab == "T"):
+            return False
+        l_, r_ = norm(e.left), norm(e.comparators[0])
+        return (l_ in kinds and r_ == typ) or (r_ in kinds and l_ == typ)
+
     for bucket, typ in (("added", "ADD"), ("deleted", "DELETE")):
         nodes = [n for n in g.nodes.values() if first.id in n.loops for c in calls_at(n) if is_method_call(c, "append") and norm(c.func.value) == bucket]
         for n in nodes:
-            w = cut(g, [n.id], lambda t, lab, typ=typ: t.kind == "test" and norm(t.ast) in (f"change.typ == {typ}", f"{typ} == change.typ") and lab == "T", start=first.id)
+            w = cut(g, [n.id], lambda t, lab, typ=typ: is_kind_test(t, lab, typ), start=first.id)
             ck.require(w is None, "C08.renames", fn, n, f"`{bucket}` receives only {typ} changes", f"`{bucket}` can receive changes that are not {typ}", witness=g.fmt_path(w) if w else None)
     # the structure whose remainder is yielded at the end
     tail = []
